@@ -15,7 +15,20 @@ DISP_NOTE = ("Trusted: Lean kernel; the hand-written model of server/handle.go (
 PFX_NOTE = ("Trusted: Lean kernel; the hand-written model of plugins/prefix/plugin.go over the IPv6 allocator model, tied to the code by differential conformance on generated message "
             "histories (through the wire, so that length-0 and length>128 hints arrive as the library delivers them); the clock is a parameter; bitset and DHCPv6 codec not verified.")
 
+PLUG_NOTE = ("Trusted: Lean kernel; the hand-written models of the option plugins and server_id with Lean encoders mirroring the library's, tied to the code by differential conformance "
+             "(every built-in plugin, each configuration in a fresh process, batteries of requests; exact comparison of the returned options) ; stdlib parsers are oracle answers.")
+
 META = {
+    "C14": dict(
+        text="Lean theorems: the server_id models satisfy the RFC 8415 section 16 discard matrix for all 256 message types x {no, own, other} Server-ID (decide over the whole table), stamp exactly one Server-ID equal to the configured DUID; DHCPv4: dropped iff a BOOTREQUEST names another server in siaddr or option 54, otherwise siaddr and option 54 are stamped. The same predicates judge the real plugin.",
+        design_ref="DESIGN.md §4.2", technique="Lean 4 theorems (decision table over all message types; stamping) + conformance against the real server_id plugin", note=PLUG_NOTE),
+    "C17": dict(
+        text="Lean theorems, one per plugin and protocol plus C17_builtin4/6 for anything setup accepts: the option(s) the plugin owns are present afterwards exactly when the property says, with exactly the encoded configured value, every other option / message type / yiaddr untouched, stop/continue as stated; in-range numbers decode back to themselves. The same predicates judge every built-in plugin on generated configurations and requests.",
+        design_ref="DESIGN.md §4.2", technique="Lean 4 theorems (per-plugin decision + encoders) + conformance against every built-in option plugin", note=PLUG_NOTE),
+    "C19": dict(
+        text="Lean theorems: a configuration the setup model accepts satisfies wireOK (the precondition under which the emitted bytes decode back), and under wireOK the Lean decoders invert the encoders (routes, RFC 1035 label lists of any length, address lists, boot-file parameters); staticroute rejects non-IPv4. Partial: 'no panic' is observed on the implementation; one known finding (oversize DHCPv6 option bodies).",
+        design_ref="DESIGN.md §4.2", technique="Lean 4 theorems (setup => wire precondition, encoder/decoder round trips) + conformance and round-trip oracle on every built-in plugin and on whole chains",
+        note="Partial: the library's own parser is mirrored, not verified; the DHCPv6 oversize-option case is a recorded known finding. " + PLUG_NOTE),
     "C18": dict(
         text="Lean theorem: for every parsed document, interface list and stdlib answer, the loader model returns exactly what an independently written specification demands (plugin lists, [address][%zone][:port] with defaults — incl. a general proof that splitting at the last '%' equals the spec's split —, multicast expansion, every listed error case). Partial: YAML/viper/cast text layer is third-party; generated and mutated documents are loaded by the real config.Load under recover and compared.",
         design_ref="DESIGN.md §4 C18", technique="Lean 4 theorem (loader model = independent specification, all inputs) + conformance of the model against config.Load on generated and mutated YAML",
@@ -75,4 +88,4 @@ META = {
 }
 NOT_YET = {}
 # properties whose check is complete and registered
-ENABLED = {"C20", "C02", "C03", "C04", "C05", "C06", "C07", "C11", "C12", "C13", "C15", "C08", "C09", "C10", "C01", "C16", "C18"}
+ENABLED = {"C20", "C02", "C03", "C04", "C05", "C06", "C07", "C11", "C12", "C13", "C15", "C08", "C09", "C10", "C01", "C16", "C18", "C14", "C17", "C19"}
